@@ -1,0 +1,26 @@
+//go:build verif
+
+package server
+
+import (
+	"context"
+	"log/slog"
+	"net"
+
+	"example.com/scion-time/net/ntske"
+)
+
+// Verification hooks for property C20.
+
+// VerifC20NewNTSKEMsg exposes newNTSKEMsg.
+func VerifC20NewNTSKEMsg(ctx context.Context, log *slog.Logger,
+	localIP net.IP, localPort int, data *ntske.Data, provider *ntske.Provider) (
+	ntske.ExchangeMsg, error) {
+	return newNTSKEMsg(ctx, log, localIP, localPort, data, provider)
+}
+
+// VerifC20RunNTSKEServerTLS exposes the accept loop of the NTS-KE server over TLS.
+func VerifC20RunNTSKEServerTLS(ctx context.Context, log *slog.Logger,
+	listener net.Listener, localPort int, provider *ntske.Provider) {
+	runNTSKEServerTLS(ctx, log, listener, localPort, provider)
+}
